@@ -36,6 +36,8 @@ type Prog struct {
 	recTemplates map[string]*recTemplate
 	mu        sync.Mutex
 	nonlinearDef map[string]bool
+	sites        map[string][]interiorSite
+	structTypes  map[string]types.Type // named struct types of the repository
 	recBuilding  map[string]bool
 	recHeapKeys  map[string][]heapParam
 }
@@ -81,6 +83,12 @@ func loadProg(repoDir string) (*Prog, error) {
 			case *ssa.Function:
 				P.addFunc(k, m)
 			case *ssa.Type:
+				if _, isStruct := m.Type().Underlying().(*types.Struct); isStruct {
+					if P.structTypes == nil {
+						P.structTypes = map[string]types.Type{}
+					}
+					P.structTypes[m.Type().String()] = m.Type()
+				}
 				for _, t := range []types.Type{m.Type(), types.NewPointer(m.Type())} {
 					ms := prog.MethodSets.MethodSet(t)
 					for i := 0; i < ms.Len(); i++ {
